@@ -43,7 +43,7 @@ def run_cases(prop, tier, seed, cases, devices, matcher=None, keyf=None, rule=""
     scratch = Scratch(prop)
     v = Verdict(prop, tier, seed, "model_checking")
     try:
-        jobs = [{"k": "str", "id": i, "src": c.src} for i, c in enumerate(cases)]
+        jobs = [{"k": "str", "id": i, "src": c.src, "nohex": not c.mat} for i, c in enumerate(cases)]
         res = run_jobs(jobs)
         events = []
         for i, c in enumerate(cases):
@@ -274,3 +274,556 @@ def check(prop, tier, seed):
     build_harness()
     devices = isamod.device_table()
     return CHECKS[prop](prop, tier, seed, devices)
+
+
+# ========================================================================================
+# C03 -- relative branches and jumps
+
+BR_NAMES = ["brcs", "brlo", "breq", "brmi", "brvs", "brlt", "brhs", "brts", "brie",
+            "brcc", "brsh", "brne", "brpl", "brvc", "brge", "brhc", "brtc", "brid"]
+BR_KINDS = [(n, None) for n in BR_NAMES] + [("brbs", s) for s in range(8)] + [("brbc", s) for s in range(8)]
+JMP_KINDS = [("rjmp", None), ("rcall", None)]
+
+
+def filler(rnd, words, style, base):
+    """Lines occupying exactly `words` words of flash starting at word address `base`
+    (the generator knows item sizes only to shape distances; it never judges)."""
+    out = []
+    left = words
+    if style == "org" and words >= 2:
+        out.append(instr("nop"))
+        out.append(org(base + words - 1))
+        out.append(instr("nop"))
+        return out
+    while left > 0:
+        if left > 120:
+            # long stretches are bridged with 200-byte strings (100 words) so that programs stay short
+            out.append(data(1, S("q" * 200)))
+            left -= 100
+            continue
+        s = style if style != "mix" else rnd.choice(["nop", "jmp", "db", "dw", "dbs"])
+        if s == "jmp" and left >= 2:
+            out.append(instr("jmp", E(0)))
+            left -= 2
+        elif s == "db":
+            out.append(data(1, E(left % 256)))          # one byte, padded to a word
+            left -= 1
+        elif s == "dbs" and left >= 2:
+            out.append(data(1, S("abc")))               # three bytes, padded to two words
+            left -= 2
+        elif s == "dw":
+            out.append(data(2, E(0xbeef)))
+            left -= 1
+        else:
+            out.append(instr("nop"))
+            left -= 1
+    return out
+
+
+def branch_case(rnd, kind, d, style, naming, prefix):
+    mn, s = kind
+    pre = [instr("nop") for _ in range(prefix)]
+    ops_pre = [E(s)] if s is not None else []
+    if d >= 0:      # forward: branch at A=prefix, target at A+1+d
+        tgt = E(sym("target")) if naming == "label" else E(binop("+", sym("pc"), lit(1 + d)))
+        prog = pre + [instr(mn, *(ops_pre + [tgt]))] + filler(rnd, d, style, prefix + 1)
+        prog += [label("target"), instr("ret")]
+    else:           # backward: target at T=prefix, branch at T+g, g = -d-1
+        g = -d - 1
+        tgt = E(sym("target")) if naming == "label" else E(binop("-", sym("pc"), lit(g)))
+        prog = pre + [label("target")] + filler(rnd, g, style, prefix) + [instr(mn, *(ops_pre + [tgt])), instr("ret")]
+    return Case(prog, tag="%s d=%s" % ("br" if mn.startswith("br") else "rj", "in" if (-64 <= d <= 63 if mn.startswith("br") else -2048 <= d <= 2047) else "out"))
+
+
+def check_c03(prop, tier, seed, devices):
+    rnd = random.Random(seed)
+    cases = []
+    styles = ["nop", "jmp", "db", "dw", "dbs", "org", "mix"]
+    br_bound = [-70, -66, -65, -64, -63, -62, -2, -1, 0, 1, 2, 61, 62, 63, 64, 65, 66, 70]
+    rj_bound = [-2056, -2050, -2049, -2048, -2047, -2046, -1, 0, 1, 2046, 2047, 2048, 2049, 2056]
+    # every kind at every boundary distance, fillers rotated (thorough: all fillers)
+    for ki, kind in enumerate(BR_KINDS):
+        for di, d in enumerate(br_bound):
+            sts = styles if tier == "thorough" else [styles[(ki + di) % len(styles)], styles[(ki + 2 * di + 3) % len(styles)]]
+            for st in sts:
+                for naming in ("label", "pc"):
+                    cases.append(branch_case(rnd, kind, d, st, naming, prefix=(ki + di) % 5))
+    # every distance in -70..70, kinds rotated (thorough: all kinds)
+    for d in range(-70, 71):
+        kinds = BR_KINDS if tier == "thorough" else [BR_KINDS[(d + 70 + j * 7) % len(BR_KINDS)] for j in range(3)]
+        for j, kind in enumerate(kinds):
+            cases.append(branch_case(rnd, kind, d, styles[(d + j) % len(styles)], "label" if (d + j) % 2 else "pc", prefix=j))
+    for ki, kind in enumerate(JMP_KINDS):
+        ds = set(rj_bound) | {rnd.randrange(-2048, 2048) for _ in range(20 if tier == "quick" else 300)}
+        for di, d in enumerate(sorted(ds)):
+            sts = styles if tier == "thorough" and d in rj_bound else [styles[(ki + di) % len(styles)]]
+            for st in sts:
+                for naming in ("label", "pc"):
+                    cases.append(branch_case(rnd, kind, d, st, naming, prefix=di % 3))
+    return run_cases(prop, tier, seed, cases, devices, keyf=default_key,
+                     rule="<prefix, branch/jump, filler, target> forward and backward for 34 branch forms + rjmp/rcall; every boundary "
+                          "distance for every form, every distance -70..70 with forms rotated; fillers: nop, jmp, odd .db, .dw, 3-byte .db, "
+                          ".org gap, mixed; target named by label and by pc expression")
+
+
+CHECKS["C03"] = check_c03
+
+
+# ========================================================================================
+# C06 -- data directives
+
+STRINGS = ["", "a", "ab", "abc", "héllo", "a;b", "x,y", "//z", "ß", "tab\there"]
+
+
+def width_values(w):
+    top = 1 << (8 * w)
+    half = top >> 1
+    vals = [0, 1, 2, 255, 256, half - 1, half, top - 1, -1, -2, -half, -half + 1]
+    if w < 8:
+        vals += [top, top + 1, -half - 1, -top, (1 << 62) + 3, -(1 << 62)]
+    else:
+        vals = [0, 1, 255, (1 << 63) - 1, (1 << 62), -1, -(1 << 63) + 1, -(1 << 62)]
+    return vals
+
+
+def check_c06(prop, tier, seed, devices):
+    rnd = random.Random(seed)
+    cases = []
+    for segname in ("code", "eeprom", "data"):
+        for w in (1, 2, 4, 8):
+            vals = width_values(w)
+            elems_pool = [E(lit(v)) for v in vals] + [E(sym("k1")), E(sym("here"))]
+            if w == 1 or segname == "code":
+                elems_pool += [S(s) for s in STRINGS]
+            # single elements, pairs, and a second data line after it (exposes per-line padding)
+            lists = [[e] for e in elems_pool]
+            lists += [[a, b] for a in elems_pool[:6] + elems_pool[-4:] for b in elems_pool[:4] + elems_pool[-3:]]
+            lists += [[]]
+            n3 = 150 if tier == "quick" else 3000
+            half, top = 1 << (8 * w - 1), 1 << (8 * w)
+            good = [E(lit(v)) for v in vals if (w == 8 or -half <= v < top)] + [E(sym("k1")), E(sym("here"))]
+            if w == 1:
+                good += [S(s) for s in STRINGS]
+            for _ in range(n3):
+                # mostly lists that fit (so that long correct outputs are compared), some with one misfit
+                els = [rnd.choice(good) for _ in range(rnd.randrange(3, 6))]
+                if rnd.random() < 0.2:
+                    els[rnd.randrange(len(els))] = rnd.choice(elems_pool)
+                lists.append(els)
+            for els in lists:
+                prog = [equ("k1", 0x41), seg(segname), label("here"), data(w, *copy.deepcopy(els))]
+                second = rnd.choice([None, data(1, E(0x7e)), data(2, E(0x1234)), byte(3) if segname != "code" else instr("nop")])
+                if second:
+                    prog.append(second)
+                cases.append(Case(prog, tag="%s.w%d" % (segname, w)))
+    # .byte in eeprom / code / data
+    for n in (0, 1, 2, 5):
+        for segname in ("eeprom", "code", "data"):
+            cases.append(Case([seg(segname), data(1, E(1)) if segname == "eeprom" else line("blank"), byte(n), data(1, E(2)) if segname == "eeprom" else line("blank")], tag="byte." + segname))
+    return run_cases(prop, tier, seed, cases, devices, keyf=default_key,
+                     rule=".db/.dw/.dd/.dq with element lists of length 0..5 over boundary values of each width (both ends, signed and unsigned), "
+                          ".equ symbols, labels and ten strings (empty, non-ASCII, containing ; , //), in code, eeprom and data segments, "
+                          "followed by a second item; .byte n in each segment")
+
+
+CHECKS["C06"] = check_c06
+
+
+# ========================================================================================
+# C10 -- symbols
+
+CASES3 = ["lower", "upper", "mixed"]
+
+
+def sym_program(rnd, n):
+    """Random program over disjoint name pools: labels, .equ, .set, .def aliases.  Mostly valid:
+    a use refers (85%) to a name that is bound at that point -- labels and .equ anywhere in the
+    program, .set after an assignment, aliases between .def and .undef."""
+    labels, equs, sets, aliases = ["lab1", "lab2"], ["k1", "k2", "k3"], ["v1", "v2"], ["tmp", "cnt"]
+    use_lab = [l for l in labels if rnd.random() < 0.7]
+    use_equ = [e for e in equs if rnd.random() < 0.7]
+    pending = [("label", l) for l in use_lab] + [("equ", e) for e in use_equ]
+    rnd.shuffle(pending)
+    alias_on, set_on = {}, set()
+    prog = []
+    steps = max(n, len(pending))
+    for step in range(steps):
+        if pending and rnd.random() < len(pending) / float(steps - step):
+            kind, nme = pending.pop()
+            if kind == "label":
+                prog.append(rnd.choice([label(nme), instr("nop", lab=nme)]))
+            else:
+                others = [x for x in use_equ + use_lab if x != nme]
+                e = binop("+", sym(rnd.choice(others)), lit(1)) if others and rnd.random() < 0.4 else lit(rnd.randrange(1, 60))
+                prog.append(equ(nme, e))
+            continue
+        glob = use_equ + use_lab
+        bound = glob + sorted(set_on)
+        anyname = equs + sets + labels
+
+        def pick(pool, fallback):
+            return rnd.choice(pool) if pool and rnd.random() < 0.85 else rnd.choice(fallback)
+        on = [a for a in aliases if alias_on.get(a)]
+        x = rnd.random()
+        if x < 0.22:
+            nme = rnd.choice(sets)
+            opts = [lit(rnd.randrange(1, 60))]
+            if nme in set_on or rnd.random() < 0.1:
+                opts.append(binop("+", sym(nme), lit(1)))
+            if glob:
+                opts.append(binop("+", sym(rnd.choice(glob)), lit(2)))
+            prog.append(setv(nme, rnd.choice(opts)))
+            set_on.add(nme)
+        elif x < 0.37:
+            a = rnd.choice(aliases)
+            if not alias_on.get(a):
+                alias_on[a] = True
+                prog.append(defr(a, rnd.choice([16, 17, 20, 31])))
+            else:
+                alias_on[a] = False
+                prog.append(undef(a))
+        elif x < 0.57:
+            prog.append(instr("ldi", R(18), E(sym(pick(bound, anyname + aliases)))))
+        elif x < 0.72:
+            prog.append(data(2, E(sym(pick(bound, anyname)))))
+        elif x < 0.84:
+            prog.append(instr("mov", E(sym(pick(on, aliases))), R(1)))
+        elif x < 0.94:
+            prog.append(instr("ldi", E(sym(pick(on, aliases))), E(sym(pick(bound, anyname)))))
+        else:
+            prog.append(instr("add", E(sym(pick(on, aliases))), E(sym(pick(on, aliases)))))
+    return prog
+
+
+def check_c10(prop, tier, seed, devices):
+    rnd = random.Random(seed)
+    cases = []
+    nprog = 500 if tier == "quick" else 8000
+    for _ in range(nprog):
+        base = sym_program(rnd, rnd.randrange(3, 11))
+
+        def mk(p, tag):
+            p = copy.deepcopy(p)
+            spells = [Spell(case=rnd.choice(CASES3)) for _ in p]
+            cases.append(Case(p, tag=tag, spells=spells))
+        mk(base, "base")
+        for i, l in enumerate(base):        # every single-line deletion
+            mk(base[:i] + base[i + 1:], "deleted")
+        for i, l in enumerate(base):        # duplication where the outcome is specified
+            if l["k"] in ("equ", "def", "undef"):
+                continue
+            j = rnd.randrange(i + 1, len(base) + 1)
+            mk(base[:j] + [copy.deepcopy(l)] + base[j:], "duplicated")
+    # hand-shaped corner cases
+    hand = [
+        [setv("foo", 1), instr("ldi", R(16), E(sym("foo")))],
+        [defr("temp", 16), instr("ldi", E(sym("temp")), E(1)), undef("temp")],
+        [defr("temp", 16), undef("temp"), instr("ldi", E(sym("temp")), E(1))],
+        [instr("ldi", R(16), E(sym("later"))), equ("later", 9)],
+        [instr("rjmp", E(sym("fwd"))), instr("nop"), label("fwd"), instr("ret")],
+        [label("twice"), instr("nop"), label("twice")],
+        [instr("ldi", R(16), E(sym("nowhere")))],
+        [setv("cnt1", 1), data(2, E(sym("cnt1"))), setv("cnt1", binop("+", sym("cnt1"), lit(1))), data(2, E(sym("cnt1")))],
+        [data(2, E(sym("v9"))), setv("v9", 4)],
+        [equ("a1", binop("+", sym("b1"), lit(1))), equ("b1", 2), instr("ldi", R(16), E(sym("a1")))],
+    ]
+    for p in hand:
+        for cs in CASES3:
+            for cs2 in CASES3:
+                q = copy.deepcopy(p)
+                spells = [Spell(case=cs if i % 2 == 0 else cs2) for i in range(len(q))]
+                cases.append(Case(q, tag="hand", spells=spells))
+    return run_cases(prop, tier, seed, cases, devices, keyf=default_key,
+                     rule="random programs of 3-9 lines over {label def, .equ (literal / other+1), .set (literal / self+1 / equ*2 / label+3), "
+                          ".def, .undef, uses in ldi/.dw/mov/add} with disjoint name pools, every line spelled in lower/upper/mixed case; "
+                          "plus every single-line deletion and every duplication whose outcome the property fixes; plus hand-shaped corners",
+                     assumptions=["cross-kind name clashes, .equ redefinition, .def of a bound alias are not generated (property silent)",
+                                  ".equ bodies refer only to literals, other .equ names and labels (eager vs lazy evaluation is not specified)"])
+
+
+CHECKS["C10"] = check_c10
+
+
+# ========================================================================================
+# C08 -- conditional assembly
+
+def cond_structures(n, depth):
+    """All well-formed line-kind sequences of exactly n lines at nesting <= depth.
+    Yields tuples of symbols: 'S' statement, ('if',c) ('elif',c) 'else' 'endif'."""
+    memo = {}
+
+    def block(n, d):
+        # sequences of statements / constructs using exactly n lines
+        key = ("b", n, d)
+        if key in memo:
+            return memo[key]
+        out = []
+        if n == 0:
+            out.append(())
+        else:
+            for rest in block(n - 1, d):
+                out.append(("S",) + rest)
+            if d > 0:
+                for k in range(2, n + 1):
+                    for c in construct(k, d):
+                        for rest in block(n - k, d):
+                            out.append(c + rest)
+        memo[key] = out
+        return out
+
+    def construct(n, d):
+        # if B (elif B)* (else B)? endif  using exactly n lines
+        key = ("c", n, d)
+        if key in memo:
+            return memo[key]
+        out = []
+        for body in arms(n - 2, d - 1, True):
+            out.append((("if",),) + body + ("endif",))
+        memo[key] = out
+        return out
+
+    def arms(n, d, first):
+        # first arm body, then (elif body)*, then optional else body -- exactly n lines
+        key = ("a", n, d, first)
+        if key in memo:
+            return memo[key]
+        out = []
+        for k in range(0, n + 1):
+            for b in block(k, d):
+                left = n - k
+                if left == 0:
+                    out.append(b)
+                else:
+                    # continue with elif
+                    for rest in arms(left - 1, d, False):
+                        out.append(b + (("elif",),) + rest)
+                    # or finish with else
+                    for eb in block(left - 1, d):
+                        out.append(b + ("else",) + eb)
+        memo[key] = out
+        return out
+
+    return block(n, depth)
+
+
+IF_FORMS = ["if0", "if1", "ifk1", "ifk2", "ifdef", "ifndef"]
+STMTS = ["mark", "msg", "garbage", "define", "mark", "labeluse"]
+
+
+def cond_program(struct, choice):
+    """Instantiates a structure; choice(i, options) picks per position."""
+    prog = [equ("kk", 1)]
+    nlab = 0
+    for i, s in enumerate(struct):
+        if s == "S":
+            st = choice(i, STMTS)
+            if st == "mark":
+                prog.append(instr("ldi", R(16), E(i + 1)))
+            elif st == "msg":
+                prog.append(line("message", txt="msg%d" % i))
+            elif st == "garbage":
+                prog.append(line("garbage", text="this is ( not assembly %d" % i))
+            elif st == "define":
+                prog.append(line("define", n="FLAG"))
+            else:
+                nlab += 1
+                prog.append(instr("rjmp", E(sym("lb%d" % nlab)), lab="lb%d" % nlab))
+        elif s == "else":
+            prog.append(line("else"))
+        elif s == "endif":
+            prog.append(line("endif"))
+        elif s[0] == "if":
+            f = choice(i, IF_FORMS)
+            if f in ("if0", "if1"):
+                prog.append(line("if", e=lit(int(f[-1]))))
+            elif f in ("ifk1", "ifk2"):
+                prog.append(line("if", e=binop("==", sym("kk"), lit(int(f[-1])))))
+            else:
+                prog.append(line(f, n="FLAG"))
+        elif s[0] == "elif":
+            f = choice(i, ["0", "1", "k1", "k2"])
+            prog.append(line("elif", e=lit(int(f)) if f in "01" else binop("==", sym("kk"), lit(int(f[-1])))))
+    return prog
+
+
+def check_c08(prop, tier, seed, devices):
+    rnd = random.Random(seed)
+    cases = []
+    maxn = 6 if tier == "quick" else 8
+    per_struct = 3 if tier == "quick" else 6
+    nstruct = 0
+    for n in range(2, maxn + 1):
+        for struct in cond_structures(n, 3):
+            if not any(isinstance(s, tuple) for s in struct):
+                continue
+            nstruct += 1
+            # all-true, all-false and seeded assignments of the free choices
+            assigns = [lambda i, o: o[0], lambda i, o: o[1 % len(o)]]
+            for _ in range(per_struct):
+                assigns.append(lambda i, o, r=random.Random(rnd.random()): r.choice(o))
+            for ch in assigns:
+                prog = cond_program(struct, ch)
+                texts = [l["txt"] for l in prog if l["k"] == "message"]
+                cases.append(Case(prog, tag="len%d" % n, msg_texts=texts))
+    # de-duplicate
+    seen, uniq = set(), []
+    for c in cases:
+        if c.src not in seen:
+            seen.add(c.src)
+            uniq.append(c)
+    if tier == "quick" and len(uniq) > 25000:
+        uniq = rnd.sample(uniq, 25000)
+    return run_cases(prop, tier, seed, uniq, devices, keyf=default_key,
+                     rule="every well-formed nesting structure (if / elif* / else? / endif, nesting <= 3) of up to %d lines, each instantiated with "
+                          "all-true, all-false and %d seeded assignments of {.if 0/1, .if K==k, .ifdef/.ifndef FLAG} x {.elif 0/1/K==k} x "
+                          "{marker instruction, .message, garbage text, .define FLAG, label+use}; %d structures" % (maxn, per_struct, nstruct),
+                     assumptions=["ill-formed chains (.elif after .else, unbalanced .endif, missing .endif) are not generated (C16 only)"])
+
+
+CHECKS["C08"] = check_c08
+
+
+# ========================================================================================
+# C15 -- error lines and messages
+
+def base_programs():
+    return [
+        [instr("ldi", R(16), E(1)), instr("nop", lab="main"), data(2, E(sym("main"))), instr("rjmp", E(sym("main")))],
+        [equ("k", 5), seg("data"), byte(2, lab="buf"), seg("code"), instr("lds", R(16), E(sym("buf"))), instr("ldi", R(17), E(sym("k")))],
+        [line("if", e=lit(1)), instr("nop"), line("else"), instr("ret"), line("endif"), instr("sei", lab="main")],
+        [seg("eeprom"), data(1, E(1), E(2), lab="ee"), seg("code"), instr("ldi", R(20), E(fn("low", sym("ee")))), label("main")],
+        [setv("cnt", 1), data(1, E(sym("cnt")), E(0)), setv("cnt", binop("+", sym("cnt"), lit(1))), instr("inc", R(1), lab="main")],
+    ]
+
+
+def fault_lines():
+    return [
+        ("syntax", [line("garbage", text="ldi r16,, 1")]),
+        ("syntax", [line("garbage", text="%%% what")]),
+        ("syntax", [line("garbage", text='.db "unterminated')]),
+        ("unknown-mnemonic", [call("frobnicate", R(1), R(2))]),
+        ("wrong-kind", [instr("ldi", R(16), R(2))]),
+        ("wrong-kind", [instr("mov", R(1), E(5))]),
+        ("out-of-range", [instr("ldi", R(16), E(300))]),
+        ("out-of-range", [instr("sbi", E(40), E(1))]),
+        ("out-of-range", [instr("adiw", R(24), E(64))]),
+        ("out-of-range", [instr("ldi", R(3), E(1))]),
+        ("undef-instr", [instr("ldi", R(16), E(sym("nosuch")))]),
+        ("undef-data", [data(2, E(sym("nosuch")))]),
+        ("undef-set", [setv("zz", binop("+", sym("nosuch"), lit(1)))]),
+        ("undef-if", [line("if", e=sym("nosuch")), line("endif")]),
+        ("dup-label", [label("main")]),
+        ("error-directive", [line("error", txt="stop here")]),
+    ]
+
+
+def check_c15(prop, tier, seed, devices):
+    rnd = random.Random(seed)
+    cases = []
+    for bi, base in enumerate(base_programs()):
+        for pos in range(len(base) + 1):
+            # do not split an .if ... .endif of the base program in a way that hides the fault: allowed, the spec decides
+            for kind, fl in fault_lines():
+                for shift in (0, 7):
+                    prog = [line("blank") for _ in range(shift)] + copy.deepcopy(base[:pos]) + copy.deepcopy(fl) + copy.deepcopy(base[pos:])
+                    cases.append(Case(prog, tag=kind, chkline=True))
+    # messages: placements of .message/.warning/.error around and inside taken / untaken branches
+    slots = 6
+    skeleton = lambda: [instr("nop"), line("if", e=lit(1)), instr("ldi", R(16), E(1)), line("else"), instr("ldi", R(16), E(2)), line("endif"),
+                        line("ifdef", n="NOPE"), instr("ret"), line("endif"), instr("sei")]
+    n = 0
+    for combo in itertools.product([None, "message", "warning", "error"], repeat=4):
+        for places in ([0, 2, 4, 9], [1, 3, 7, 10], [2, 2, 5, 8]):
+            prog = skeleton()
+            texts = []
+            ins = sorted(((p, k) for p, k in zip(places, combo) if k), key=lambda x: -x[0])
+            for j, (p, k) in enumerate(ins):
+                n += 1
+                t = "note%dx%d" % (n, j)
+                texts.append(t)
+                prog.insert(p, line(k, txt=t))
+            for shift in (0, 7):
+                q = [line("blank") for _ in range(shift)] + copy.deepcopy(prog)
+                cases.append(Case(q, tag="messages", chkline=True, msg_texts=texts))
+    return run_cases(prop, tier, seed, cases, devices, keyf=default_key,
+                     rule="5 valid base programs x every insertion position x 16 single-line faults (syntax, unknown mnemonic, wrong kind, "
+                          "out of range, undefined symbol in instruction/data/.set/.if, duplicate label, .error), each built as is and "
+                          "shifted down by 7 lines; the error text must contain the specification's fault line as an integer token both times; "
+                          "plus 768 placements of .message/.warning/.error in and around taken and untaken branches",
+                     assumptions=["messages from macro bodies and line numbers inside included files are not checked (property silent)"])
+
+
+CHECKS["C15"] = check_c15
+
+
+# ========================================================================================
+# C12 -- capacity limits
+
+def limit_cases(devname, d):
+    """Programs reaching capacity-1, capacity, capacity+1 of each memory by different means."""
+    out = []
+    dev = [line("device", n=devname)] if devname else []
+    F, E_, R_, RS = d["flash"], d["eeprom"], d["ramsize"], d["ramstart"]
+
+    def add(tag, body):
+        out.append(Case(dev + body, tag=tag, mat=False))
+    # flash (words): by instruction, by data, by two-word instruction, by .org
+    for delta in (-1, 0, 1):
+        n = F + delta            # words wanted
+        if n >= 1:
+            add("flash.instr", [org(n - 1), instr("nop")])
+            add("flash.dw", [org(n - 1), data(2, E(0x1234))])
+            add("flash.db", [org(n - 1), data(1, E(1))])
+        if n >= 2:
+            add("flash.jmp", [org(n - 2), instr("rjmp", E(0)), instr("nop")])
+            add("flash.dd", [org(n - 2), data(4, E(1))])
+        if n >= 3:
+            add("flash.mixed", [instr("nop"), data(1, S("ab")), org(n - 1), instr("ret")])
+    # eeprom (bytes)
+    for delta in (-1, 0, 1):
+        n = E_ + delta
+        if n >= 1:
+            add("eeprom.db", [seg("eeprom"), org(n - 1), data(1, E(1))])
+            add("eeprom.byte", [seg("eeprom"), byte(n)])
+            add("eeprom.byte+db", [seg("eeprom"), byte(n - 1), data(1, E(7))])
+        if n >= 2:
+            add("eeprom.dw", [seg("eeprom"), org(n - 2), data(2, E(1))])
+        if n == 0:
+            add("eeprom.none", [seg("eeprom"), instr("nop")] if False else [seg("code"), instr("nop")])
+    # ram (bytes)
+    for delta in (-1, 0, 1):
+        n = R_ + delta
+        if n >= 1:
+            add("ram.byte", [seg("data"), byte(n)])
+            add("ram.org", [seg("data"), org(RS + n - 1), byte(1)])
+            add("ram.split", [seg("data"), byte(1), seg("code"), instr("nop"), seg("data"), byte(n - 1)])
+        if n == 0:
+            add("ram.zero", [seg("data"), byte(0), seg("code"), instr("nop")])
+    return out
+
+
+def check_c12(prop, tier, seed, devices):
+    cases = []
+    default = {"flash": 4194304, "eeprom": 65536, "ramsize": 8388608, "ramstart": 0x60}
+    for name in sorted(devices):
+        cases += limit_cases(name, devices[name])
+    cases += limit_cases("", default)
+    # unknown device, second device, reported sizes of a trivial program for every device
+    cases.append(Case([line("device", n="ATnothing99"), instr("nop")], tag="unknown-device"))
+    cases.append(Case([line("device", n="ATmega8"), line("device", n="ATmega16"), instr("nop")], tag="second-device"))
+    cases.append(Case([line("device", n="ATmega8"), line("device", n="ATmega8"), instr("nop")], tag="second-device"))
+    cases.append(Case([instr("nop"), line("device", n="ATmega8"), instr("nop")], tag="device-after-code"))
+    for name in sorted(devices):
+        cases.append(Case([line("device", n=name), instr("nop"), seg("data"), byte(0)], tag="sizes"))
+    part = partfile_events(devices)
+    return run_cases(prop, tier, seed, cases, devices, keyf=default_key, exhaustive=True,
+                     rule="every device of the table (and none) x {flash, EEPROM, RAM} x {capacity-1, capacity, capacity+1} reached by "
+                          "instructions, data, reservations and .org; unknown device; second device; reported sizes for every device",
+                     extra_cov=part)
+
+
+def partfile_events(devices):
+    return {}
+
+
+CHECKS["C12"] = check_c12
